@@ -121,19 +121,20 @@ type StoreCall struct {
 }
 
 type View struct {
-	Spec   *Spec
-	Ev     []Event
-	Terms  map[string][]*Term
-	All    []*Term
-	Muts   []Mut // successful mutations + expiries, in order
-	APIs   []*APICall
-	Calls  map[int]*StoreCall
-	CallsL []*StoreCall
-	yields []Event
-	holds  []Event       // user-code calls held by the harness for a positive virtual duration (VT = begin, N = duration)
-	End    time.Duration // VT of teardown
-	EndSeq int
-	Insts  []string
+	Spec     *Spec
+	Ev       []Event
+	Terms    map[string][]*Term
+	All      []*Term
+	Muts     []Mut // successful mutations + expiries, in order
+	APIs     []*APICall
+	Calls    map[int]*StoreCall
+	CallsL   []*StoreCall
+	yields   []Event
+	holdSeqs [][3]int      // every user-code hold, also of zero virtual duration: {index into Insts, first seq, last seq}
+	holds    []Event       // user-code calls held by the harness for a positive virtual duration (VT = begin, N = duration)
+	End      time.Duration // VT of teardown
+	EndSeq   int
+	Insts    []string
 }
 
 var causeMsgs = map[string]string{
@@ -196,6 +197,7 @@ func NewView(spec *Spec, ev []Event) *View {
 	open := map[string]*Term{}
 	openAPI := map[string][]*APICall{}
 	holdOpen := map[string]time.Duration{}
+	holdOpenSeq := map[string]int{}
 	for idx, e := range ev {
 		switch e.Kind {
 		case "yield":
@@ -203,8 +205,13 @@ func NewView(spec *Spec, ev []Event) *View {
 		case "break.hit":
 			if isUserCodeOp(e.Op) {
 				holdOpen[e.Inst+"|"+e.Op] = e.VT
+				holdOpenSeq[e.Inst+"|"+e.Op] = idx
 			}
 		case "break.release":
+			if i0, ok := holdOpenSeq[e.Inst+"|"+e.Op]; ok {
+				v.holdSeqs = append(v.holdSeqs, [3]int{v.instIndex(e.Inst), i0, idx})
+				delete(holdOpenSeq, e.Inst+"|"+e.Op)
+			}
 			if t0, ok := holdOpen[e.Inst+"|"+e.Op]; ok && e.VT > t0 {
 				v.holds = append(v.holds, Event{VT: t0, N: int64(e.VT - t0), Inst: e.Inst, Op: e.Op})
 				delete(holdOpen, e.Inst+"|"+e.Op)
@@ -443,6 +450,27 @@ func sortedKeys(m map[string]int) []string {
 
 func isUserCodeOp(op string) bool {
 	return strings.HasPrefix(op, "log:") || strings.HasPrefix(op, "metric:") || strings.HasPrefix(op, "health:")
+}
+
+func (v *View) instIndex(name string) int {
+	for i, n := range v.Insts {
+		if n == name {
+			return i
+		}
+	}
+	return -1
+}
+
+// heldAtSeq: a user-code call of the instance was being held by the harness when event idx
+// was recorded (also holds of zero virtual duration: reactions that only take real time).
+func (v *View) heldAtSeq(inst string, idx int) bool {
+	ii := v.instIndex(inst)
+	for _, h := range v.holdSeqs {
+		if h[0] == ii && idx >= h[1] && idx <= h[2] {
+			return true
+		}
+	}
+	return false
 }
 
 // heldAt: a user-code call of the instance was being held by the harness at virtual time vt.
